@@ -510,7 +510,9 @@ pub fn gen_run(a: &Args, out: &mut Out, run0: u64, nruns: u64, npairs: u64) {
                 let mut r3 = StdRng::seed_from_u64(ss ^ 0x55);
                 if chance(&mut r3, 50) { let pc = 0x3000 + r3.random_range(0..16u16); m.add_breakpoint_pc(out, pc); }
                 let mut guard = 0;
-                while !(m.sim.hit_halt() && m.sim.mem[m.sim.pc].get() == 0xF025) && guard < 400 {
+                // (until the HALT itself has executed: an MCR clear by another thread may stop a segment right before it,
+                // with the PC resting on the HALT word and hit_halt() true, but the word not yet fetched)
+                while !(m.sim.hit_halt() && m.sim.mem[m.sim.pc].get() == 0xF025 && m.sim.verif_prefetch()) && guard < 400 {
                     guard += 1;
                     let kind = pick(&mut r3, &["limit", "limit", "over", "out", "run", "stepin"]);
                     if kind == "stepin" { if m.step(out, false, false) != "ok" { break; } continue; }
